@@ -404,6 +404,18 @@ def check_match(r) -> list[Fail]:
         k += 1
         chosen.append(nx_)
         frontier = sorted({w for c in chosen for w in adj[c]} - set(chosen))
+    if r.get("two_piece") and n >= 4:
+        # a DISCONNECTED pattern (ion pair, solute + solvent, fragment + a lone atom): a second piece grown from another seed, the pattern
+        # is the induced subgraph on both (embeddings may put the pieces into different fragments of the source - or the same one)
+        chosen = chosen[:3]
+        rest_ = [i for i in range(n) if i not in chosen and not (adj[i] & set(chosen))]
+        if rest_:
+            s2 = rest_[r["two_piece"] % len(rest_)]
+            piece2 = [s2]
+            fr2 = sorted(adj[s2] - set(chosen))
+            if fr2 and r["two_piece"] % 2:
+                piece2.append(fr2[r["two_piece"] % len(fr2)])
+            chosen = chosen + [x for x in piece2 if x not in chosen]
     perm = list(range(len(chosen)))
     if r["shuffle"]:
         perm = [perm[i] for i in np.random.default_rng(r["seed"]).permutation(len(perm))]
@@ -563,14 +575,14 @@ def check_match(r) -> list[Fail]:
 
 
 def classify_match(r):
-    return True, ["mode=" + r["mode"], "cls=" + r["graph"]["cls"], "atom_types=" + ["default", "source_typed", "both_typed"][r.get("typed", 0)]]
+    return True, ["mode=" + r["mode"], "cls=" + r["graph"]["cls"], "pattern=" + ("two_pieces" if r.get("two_piece") else "connected"), "atom_types=" + ["default", "source_typed", "both_typed"][r.get("typed", 0)]]
 
 
 def strat_match(tier):
     i = st.integers(0, 1000)
     return st.fixed_dictionaries({
         "graph": _graph_recipe(24 if tier == "quick" else 40), "mode": st.sampled_from(["wildcard", "wildcard", "own_types", "absent"]),
-        "seed": i, "size": i, "grow": st.lists(i, min_size=5, max_size=5), "wild": st.integers(0, 63), "shuffle": st.booleans(), "typed": st.sampled_from([0, 1, 2]),
+        "seed": i, "size": i, "grow": st.lists(i, min_size=5, max_size=5), "wild": st.integers(0, 63), "shuffle": st.booleans(), "typed": st.sampled_from([0, 1, 2]), "two_piece": st.sampled_from([0, 0, 0, 1, 2, 3, 4]),
         "edit": st.one_of(st.none(), st.tuples(st.sampled_from(["del_bond", "connect", "element", "move_bond", "move_bond"]), i, i).map(list)),
     })
 
